@@ -125,23 +125,24 @@ def de_request(spec, rec):
 
 
 
-# ------------------------------------------------------------------ DE, reconfigured runs
+# ------------------------------------------------------------------ reconfigured runs (DE, NM)
 DEC_OPS = ("step", "setpenalty", "setconstraints", "setranges", "finalize", "setlimits", "settermination", "earlyexit", "clearexit")
 
 
-def dec_request(spec, rec):
-    """differential evolution through ANY sequence of Step / Set* ops (Model/Reconfig.lean): one `gen` per performed
-    iteration with the settings in force at that iteration; the replay stops before the first event the model does
-    not cover (a monitor replaced, a Solve op, a re-decoration that re-draws an out-of-box member at random, a
-    randomising box)"""
-    if spec["solver"] not in ("DE", "DE2") or spec.get("pushing"):
-        return None, None
-    if spec["cost"][0] == "vector" and not spec.get("reducer"):
-        return None, None
+def _cfg_sexp(spec, cfg):
+    sub = dict(spec); sub["penalty"] = cfg.get("penalty"); sub["constraints"] = cfg.get("constraints"); sub["ranges"] = cfg.get("ranges")
+    return setup_sexp(sub)
+
+
+def reconfig_events(spec, rec, de):
+    """walk the op list: every Step op that finds the solver not live re-decorates the objective FIRST (`Step` l.1096:
+    `_bootstrap_objective`), whether or not an iteration follows; a Step handed settings re-decorates inside `_Step`.
+    -> (events, snaps of the performed iterations, why the walk stopped); an event is ('redec', cfg, allclip) or
+    ('gen', cfg, redec, allclip, trials-or-None, op index)"""
     import solvermon
     tl = solvermon.config_timeline(spec, rec)
-    gens, snaps = [], []
-    prev = None            # snapshot after the previous op
+    events, snaps = [], []
+    prev = None
     why = "end"
     for oi, op in enumerate(spec["ops"]):
         if oi >= len(rec.snaps):
@@ -149,44 +150,74 @@ def dec_request(spec, rec):
         sn = rec.snaps[oi]
         if op[0] not in DEC_OPS:
             why = "op:" + op[0]; break
-        if op[0] == "step" and solvermon.step_ran(sn):
+        if op[0] == "step":
+            ran = solvermon.step_ran(sn)
             cfg = tl[oi][0]
-            if cfg.get("ranges") and cfg["ranges"][3] is False:
+            redec = prev is None or (not prev["live"]) or (ran and len(op) > 1)
+            if redec and cfg.get("ranges") and cfg["ranges"][3] is False:
                 why = "randomising-box"; break
-            redec = prev is None or (not prev["live"]) or len(op) > 1
             ngen = prev["generations"] if prev is not None else 0
             allclip = ngen == 0
-            if redec and cfg.get("ranges") and not allclip and prev is not None:
+            if de and redec and cfg.get("ranges") and not allclip and prev is not None:
                 lo, hi = cfg["ranges"][0], cfg["ranges"][1]
-                pe = prev["popEnergy"]
                 try:
-                    idx = pe.index(prev["bestEnergy"])
+                    idx = prev["popEnergy"].index(prev["bestEnergy"])
                 except ValueError:
                     why = "best-not-in-popEnergy"; break
-                outside = [i for i, m in enumerate(prev["population"]) if i != idx and any(v < l or v > h for v, l, h in zip(m, lo, hi))]
-                if outside:
+                if any(i != idx and any(v < l or v > h for v, l, h in zip(m, lo, hi)) for i, m in enumerate(prev["population"])):
                     why = "random-redraw"; break
-            n0 = prev["n_trials"] if prev is not None else 0
-            trs = [t for _, _, t in rec.trials[n0:sn["n_trials"]]]
-            npop = len(rec.init_population)
-            first = not gens and (prev is None or prev["n_stepmon"] == 0)
-            if first:
-                if trs:
-                    why = "trials-at-generation-0"; break
-                tsx = "members"
-            else:
-                if len(trs) != npop:
-                    why = "partial-generation"; break
-                tsx = fll(trs)
-            sub = dict(spec); sub["penalty"] = cfg.get("penalty"); sub["constraints"] = cfg.get("constraints"); sub["ranges"] = cfg.get("ranges")
-            gens.append("(gen (cfg %s) (redec %s) (allclip %s) (two %s) (trials %s))" % (
-                setup_sexp(sub), "true" if redec else "false", "true" if allclip else "false",
-                "true" if spec["solver"] == "DE2" else "false", tsx))
-            snaps.append(sn)
+            if ran:
+                trs = None
+                if de:
+                    n0 = prev["n_trials"] if prev is not None else 0
+                    trs = [t for _, _, t in rec.trials[n0:sn["n_trials"]]]
+                    first = not snaps and (prev is None or prev["n_stepmon"] == 0)
+                    if first:
+                        if trs:
+                            why = "trials-at-generation-0"; break
+                        trs = None
+                    elif len(trs) != len(rec.init_population):
+                        why = "partial-generation"; break
+                elif prev is not None and prev["n_stepmon"] != len(snaps):
+                    why = "step-monitor-out-of-phase"; break
+                events.append(("gen", cfg, redec, allclip, trs, oi))
+                snaps.append(sn)
+            elif redec and prev is not None:
+                events.append(("redec", cfg, allclip))
         prev = sn
-    if len(gens) < 2:
+    return events, snaps, why
+
+
+def _event_stats(events):
+    gens = [e for e in events if e[0] == "gen"]
+    nredec = sum(1 for e in events[1:] if e[0] == "redec" or e[2])
+    ncfg = len({repr(e[1]) for e in gens})
+    nidle = sum(1 for e in events if e[0] == "redec")
+    return nredec, ncfg, nidle
+
+
+def dec_request(spec, rec):
+    """differential evolution through ANY sequence of Step / Set* ops (Model/Reconfig.lean): one `gen` per performed
+    iteration with the settings in force at that iteration, one `redec` per re-decoration made by a Step that then
+    found the solver stopped; the replay ends before the first event the model does not cover (a monitor replaced, a
+    Solve op, a re-decoration that re-draws an out-of-box member at random, a randomising box)"""
+    if spec["solver"] not in ("DE", "DE2") or spec.get("pushing"):
         return None, None
-    line = "C01 dec (pop %s) (gens (%s))" % (fll(rec.init_population), " ".join(gens))
+    if spec["cost"][0] == "vector" and not spec.get("reducer"):
+        return None, None
+    events, snaps, why = reconfig_events(spec, rec, True)
+    if len(snaps) < 2:
+        return None, None
+    two = "true" if spec["solver"] == "DE2" else "false"
+    parts = []
+    for e in events:
+        if e[0] == "redec":
+            parts.append("(redec (cfg %s) (allclip %s))" % (_cfg_sexp(spec, e[1]), "true" if e[2] else "false"))
+        else:
+            parts.append("(gen (cfg %s) (redec %s) (allclip %s) (two %s) (trials %s))" % (
+                _cfg_sexp(spec, e[1]), "true" if e[2] else "false", "true" if e[3] else "false", two,
+                "members" if e[4] is None else fll(e[4])))
+    line = "C01 dec (pop %s) (gens (%s))" % (fll(rec.init_population), " ".join(parts))
 
     def compare(reply):
         steps, r = parse_steps(reply)
@@ -216,10 +247,74 @@ def dec_request(spec, rec):
             if spec["cost"][0] == "scalar" and "logsum" in r1 and int(r1["logsum"]) != log_checksum(rec.cost_calls[:snaps[-1]["n_cost_calls"]]):
                 out.append(("%s/reconfigured/evaluation-log-differs" % spec["solver"], "the sequence of (point, cost) pairs the user's cost was called with differs from the model's evaluation log"))
         return out
-    nredec = sum(1 for g in gens[1:] if "(redec true)" in g)
-    ncfg = len({g.split(" (redec ")[0] for g in gens})
-    compare.dec_info = (len(gens), why, nredec, ncfg)
+    nredec, ncfg, nidle = _event_stats(events)
+    compare.dec_info = (len(snaps), why, nredec, ncfg, nidle)
     return line, compare
+
+
+def nmc_request(spec, rec):
+    """Nelder-Mead through any sequence of Step / Set* ops: one `gen` per performed iteration with the settings in
+    force, one `redec` per re-decoration by a Step that then found the solver stopped; under strict ranges a
+    re-decoration rebuilds the simplex and keeps the energies (the model follows the code: known finding F20)"""
+    if spec["solver"] != "NM" or spec.get("pushing") or spec["dim"] > 15:
+        return None, None
+    if spec["cost"][0] == "vector" and not spec.get("reducer"):
+        return None, None
+    events, snaps, why = reconfig_events(spec, rec, False)
+    if len(snaps) < 3:
+        return None, None
+    parts = []
+    for e in events:
+        cfg = e[1]
+        if e[0] == "redec":
+            parts.append("(redec (cfg %s))" % _cfg_sexp(spec, cfg))
+        else:
+            mut = bool(spec.get("inplace")) and cfg.get("constraints") is not None and not cfg.get("ranges")
+            parts.append("(gen (cfg %s) (redec %s) (inplace %s))" % (_cfg_sexp(spec, cfg), "true" if e[2] else "false", "true" if mut else "false"))
+    line = "C01 nmc (x0 %s) (radius %s) (gens (%s))" % (fl(spec["x0"]), f2b(0.05), " ".join(parts))
+
+    def compare(reply):
+        steps, r = parse_steps(reply)
+        if steps is None:
+            return [("NM/reconfigured/model-%s" % r[0], "model replied %r" % (reply[:200],))]
+        out = []
+        complete = True
+        for k, (st, sn) in enumerate(zip(steps, snaps)):
+            msim = [fvec(p) for p in st["sim"]]
+            diffs = []
+            if k >= 1 and len(set(sn["popEnergy"])) < len(sn["popEnergy"]):
+                a = sorted((e, tuple(p)) for p, e in zip(msim, fvec(st["fsim"])))
+                b = sorted((e, tuple(p)) for p, e in zip(sn["population"], sn["popEnergy"]))
+                if [(common.f2b(e), tuple(common.f2b(v) for v in p)) for e, p in a] != [(common.f2b(e), tuple(common.f2b(v) for v in p)) for e, p in b]:
+                    out.append(("NM/reconfigured/step-diverges", "performed iteration %d (ties): simplex multisets differ model=%r impl=%r" % (k, a, b)))
+                complete = False
+                break
+            if len(msim) != len(sn["population"]) or not all(same_vec(a, b) for a, b in zip(msim, sn["population"])):
+                diffs.append("simplex model=%r impl=%r" % (msim, sn["population"]))
+            if not same_vec(fvec(st["fsim"]), sn["popEnergy"]):
+                diffs.append("energies model=%r impl=%r" % (fvec(st["fsim"]), sn["popEnergy"]))
+            if int(st["nlog"]) != sn["n_cost_calls"]:
+                diffs.append("cost calls model=%s impl=%d" % (st["nlog"], sn["n_cost_calls"]))
+            if diffs:
+                out.append(("NM/reconfigured/step-diverges", "performed iteration %d (op %r, model branch %s): %s" % (k, sn["op"], st.get("branch"), "; ".join(diffs)[:900])))
+                complete = False
+                break
+        if complete and not out and len(steps) == len(snaps) and spec["cost"][0] == "scalar":
+            r1 = r[1]
+            if "logsum" in r1 and int(r1["logsum"]) != log_checksum(rec.cost_calls[:snaps[-1]["n_cost_calls"]]):
+                out.append(("NM/reconfigured/evaluation-log-differs", "the sequence of (point, cost) pairs the user's cost was called with differs from the model's evaluation log"))
+        return out
+    nredec, ncfg, nidle = _event_stats(events)
+    k = 0
+    nreset = 0
+    for e in events:
+        if (e[0] == "redec" or e[2]) and k >= 2 and e[1].get("ranges"):
+            nreset += 1
+        if e[0] == "gen":
+            k += 1
+    compare.dec_info = (len(snaps), why, nredec, ncfg, nidle, nreset)
+    return line, compare
+
 
 # ------------------------------------------------------------------ NM
 def nm_request(spec, rec):
